@@ -322,6 +322,8 @@ def check(prog, res, tier):
         runs_g = Runs(prog, entry_g, res=res)
         from ..ext import MutCopy, GenericChild
 
+        folded = {'ok': False}
+
         def chk_g(p, mode):
             fails = []
             it = p.interp
@@ -348,6 +350,42 @@ def check(prog, res, tier):
                 v = p.value
                 if isinstance(v, PyLit) and 'global' in v.tags or isinstance(v, MutCopy) and 'global' in v.base.tags:
                     fails.append(definite(f'get_config returns the packaged configuration itself ({v!r}), not a private copy'))
+                elif isinstance(v, DictV) and not v.open and not v.sym_stores and v.default is None and v.items:
+                    # built entry by entry from the packaged literal (comprehensions are folded over its constants): compare
+                    # with what the documented loop produces
+                    def to_py(x, depth=0):
+                        x = it.resolve(x)
+                        if isinstance(x, PyLit):
+                            return x.value
+                        if isinstance(x, DictV):
+                            if x.open or x.sym_stores or x.default is not None or depth > 4:
+                                raise ValueError('open')
+                            return {k: to_py(val, depth + 1) for k, val in x.items.items()}
+                        if isinstance(x, (ListV, TupleV)) and x.items is not None:
+                            return [to_py(y, depth + 1) for y in x.items]
+                        k = it.py_key(x)
+                        if k is None and not (isinstance(x, ConstV) and x.value is None):
+                            raise ValueError('symbolic')
+                        return k
+                    try:
+                        got = to_py(v)
+                    except ValueError:
+                        got = None
+                    packaged = prog.config_literal()['bit_config']
+                    want = {bit: {k: val for k, val in e.items() if not (k == 'field_processor' and val == 'PDS')}
+                            for bit, e in packaged.items()}
+                    if got is None:
+                        fails.append(soft(f'get_config returns {v!r}: its entries are not all constants'))
+                    elif got != want:
+                        bad = next((b for b in want if got.get(b) != want[b]), None) or next(iter(set(got) - set(want)), None)
+                        fails.append(definite(f'the conversion configuration differs from the packaged one with the PDS processors '
+                                              f'removed: element {bad!r} is {got.get(bad)!r}, expected {want.get(bad)!r}', firm=True))
+                    elif any(isinstance(it.resolve(x), PyLit) and 'global' in it.resolve(x).tags and
+                             any(k == 'field_processor' and val == 'PDS' for k, val in it.resolve(x).value.items())
+                             for x in v.items.values()):
+                        fails.append(definite('a PDS carrier entry of the packaged configuration is returned itself'))
+                    else:
+                        folded['ok'] = True
                 elif not (isinstance(v, MutCopy) and v.base.path.endswith("['bit_config']")):
                     # built in another way (comprehensions, dict(...)): not followed by this rule
                     fails.append(soft(f'get_config returns {v!r}: not recognised as the bit configuration of a private copy'))
@@ -356,7 +394,7 @@ def check(prog, res, tier):
                           func_where(gfi), "if field_config.get('field_processor') == 'PDS': del field_config['field_processor']", chk_g)
         removed = any(e.kind == 'delitem' or (e.kind == 'dict-pop' and isinstance(e.data['obj'], GenericChild))
                       for p in runs_g.inv for e in p.events)
-        plain_copy = all(isinstance(p.value, MutCopy) for p in runs_g.inv if p.outcome == 'return')
+        plain_copy = all(isinstance(p.value, MutCopy) for p in runs_g.inv if p.outcome == 'return') and not folded['ok']
         if ob.verdict == PROVED and not removed and plain_copy:
             ob.verdict, ob.detail, ob.witness = REFUTED, 'no processor is removed: PDS carriers would be expanded and re-packed during conversion', {'deletes': 0}
         res.add(ob)
